@@ -193,7 +193,14 @@ impl Expression {
                 let (array_ty_nomod, modifer) = module.type_registry.extract_modifier(array_ty.0);
                 let array_tyl_nomod = module.type_registry.get_type_layer(array_ty_nomod);
                 let ty = match array_tyl_nomod {
-                    TypeLayer::Array(element, _) => element,
+                    TypeLayer::Array(element, _) => {
+                        // Elements of a const array object are const
+                        if modifer.is_const {
+                            module.type_registry.make_const(element)
+                        } else {
+                            element
+                        }
+                    }
                     TypeLayer::Vector(st, _) => module.type_registry.combine_modifier(st, modifer),
                     TypeLayer::Matrix(st, _, y) => {
                         let ty = module.type_registry.register_type(TypeLayer::Vector(st, y));
